@@ -60,6 +60,19 @@ theorem glog_fourindex_spec (L : GLog.Layout) (hL : GLog.LayoutOK L) (S : GLog.S
   ⟨GLog.fourAssigns es, GLog.loadFour_spec L S hL hw n pre term rest hpre hterm es h,
     fun e he p hp hc => GLog.getA_fourAssigns es e he p hp hc, fun p hp => GLog.getA_fourAssigns_zero es p hp⟩
 
+/-- Whole log files, sections in **any order**, any number of unrelated lines around and between them: every heading
+is recognised, its matrix goes to the attribute the source assigns it to (`olp`, `kin_ao`, `na_ao`, `er_ao`), the matrix
+reader stops exactly at the end of its matrix so that the next heading is seen, and reading ends at the termination line. -/
+theorem glog_load_spec (L : GLog.Layout) (hL : GLog.LayoutOK L) (hM : GLog.MarkersOK L) (S : GLog.Spec) (hP : S.perBlock = 5)
+    (hw : S.idxW = 3) (pre : List Str) (n : Nat) (secs : List GLog.Sec) (post : List Str)
+    (hpre : ∀ l ∈ pre, startsWith L.nbasisPrefix l = false) (hn : (natToDec n).length ≤ 4)
+    (hs : ∀ s ∈ secs, GLog.SecOK L S n s) :
+    GLog.load L (GLog.specFile S pre n secs post) = .ok (secs.foldl (GLog.applySec S n) ⟨n, none, none, none, none⟩) :=
+  GLog.load_spec L S hL hM hP hw pre n secs post hpre hn hs
+
+/-- the headings in the source are the ones Gaussian prints -/
+theorem glog_markers : GLog.MarkersOK glogL := by decide +kernel
+
 /-- the orbit used by the loader is the 8-fold symmetry class of C20 (`Helpers.written`) of the physicists' index -/
 example : GLog.orbit (5, 1, 4, 0) = Helpers.written 5 4 1 0 := rfl
 
@@ -130,6 +143,15 @@ attached to their atom, in order. -/
 theorem crd_load_spec (L : Crd.Layout) (hL : Crd.LayoutOK L) (m : Crd.Model) (h : Crd.Dom m) :
     Crd.load L (Crd.specRender m) = .ok m.obj :=
   Crd.load_spec L hL m h
+
+/-- CRD, counter-example on the complement of `Crd.Dom` (known finding `crd:spec:touching-fields`): the card format has no
+separator between its `F10.5` fields, the reader splits on blanks — a record whose y coordinate fills its ten columns
+(`-100.00000`) is a valid card and is refused. -/
+theorem crd_touching_fields_violated :
+    Crd.specAtom 0 ⟨1, ['A','L','A'], ['C','A'], ⟨false, 1000000, -5⟩, ⟨true, 10000000, -5⟩, ⟨false, 462858, -5⟩, ['M','A','I','N'], 1, ⟨false, 1201100, -5⟩⟩
+      = "    1    1 ALA  CA    10.00000-100.00000   4.62858 MAIN 1     12.01100\n".toList ∧
+    failed (Crd.parseAtom crdL (Crd.specAtom 0 ⟨1, ['A','L','A'], ['C','A'], ⟨false, 1000000, -5⟩, ⟨true, 10000000, -5⟩, ⟨false, 462858, -5⟩, ['M','A','I','N'], 1, ⟨false, 1201100, -5⟩⟩)) = true := by
+  decide +kernel
 
 /-- CRD units: positions are the printed Å values times `angstrom`, masses the printed amu values times `amu`. -/
 theorem crd_units (U : Crd.Units) (o : Crd.Obj) :
